@@ -230,6 +230,11 @@ class Models(object):
         np.add = lambda a, b: self._bin(s_add, a, b)
         np.subtract = lambda a, b: self._bin(s_sub, a, b)
         np.multiply = lambda a, b: self._bin(s_mul, a, b)
+
+        def multiply_outer(a, b):
+            a, b = self.np_asarray(a), self.np_asarray(b)
+            return Arr(tuple(a.shape) + tuple(b.shape), [s_mul(x, y) for x in a.items() for y in b.items()])
+        np.multiply.outer = multiply_outer
         np.divide = np.true_divide = lambda a, b: self._bin(s_div, a, b)
         np.logical_and = lambda a, b: ew2(ndarr.s_and, a, b)
         np.logical_or = lambda a, b: ew2(ndarr.s_or, a, b)
